@@ -159,6 +159,21 @@ PROBES = [
 ]
 
 
+def probe_shape(label: str, a: tuple, b: tuple) -> str:
+    """the known shape a probe difference has *as observed* (a = CPython, b = compiled), else "other" """
+    if label == "index-beyond-ssize_t-raises-OverflowError":
+        if "cannot fit 'int' into an index-sized integer" in a[0] and \
+                b[0] == "exc OverflowError: Python int too large to convert to C ssize_t" and a[1:] == b[1:]:
+            return label
+    elif label == "str-index-message":
+        if a[0] == "exc IndexError: string index out of range" and b[0] == "exc IndexError: index out of range" and a[1:] == b[1:]:
+            return label
+    elif label == "unexhausted-generator-finally-not-run":
+        if a[0] == b[0] and a[2] == b[2] and a[1] == "gen0 done" and b[1] == "":
+            return label
+    return "other"
+
+
 def classify(a: tuple, b: tuple) -> str:
     """a = interpreted, b = compiled"""
     if b[0].startswith("crash"):
@@ -180,7 +195,7 @@ def run(ctx: Ctx, pool, col=None):
     """two-phase (generator): generation, front half, interpreted reference and submission of the compiles;
     `yield`; then the compiled runs and the comparison"""
     rng = ctx.rng
-    nprog = ctx.pick(10, 60)
+    nprog = ctx.pick(10, 36)
     per_group = 2
     variants = [("O0", "0", False, False), ("O3", "3", False, False)]
     if not ctx.quick():
@@ -287,7 +302,7 @@ def run(ctx: Ctx, pool, col=None):
                 ndiff += 1
                 ctx.count("disagreements_checked")
                 if name == "c05probe":
-                    shape = _tys
+                    shape = probe_shape(_tys, a, b)
                     if (shape, tag) not in known_seen:
                         known_seen.add((shape, tag))
                         report(ctx, "prog", {"class": "probe-differs", "shape": shape},
